@@ -10,6 +10,7 @@ import Rtp.Proofs.AV1Packet
 import Rtp.Proofs.AV1PacketIdx
 namespace Rtp.Props.C09.AV1
 open Rtp Rtp.Model Rtp.Model.AV1
+open Rtp.Model.ObuLemmas
 
 /-- AV1Depacketizer, every receiver state and every sequence of payloads: the C09 predicate holds
     of the model's observation (no panic in Unmarshal, IsPartitionHead, IsPartitionTail) -/
